@@ -60,6 +60,10 @@ class Frame:
         return f
 
 
+class _NeedsAbstraction(Exception):
+    pass
+
+
 class Effect:
     __slots__ = ("recv", "method", "args", "kwargs", "result", "tag")
 
@@ -1726,33 +1730,41 @@ class Engine:
         inv = self.find_loop_contract(st, stmt)
         if inv is not None:
             return inv(self, st, stmt)
-        # bounded unrolling is not a proof: only allowed when the condition is decided concretely
+        # concrete unrolling while the test is decided concretely (at most 6 iterations); as soon as the test becomes
+        # symbolic, or the loop runs longer, the whole loop is handled by arbitrary-iteration abstraction from the pre-state
+        st0 = st.clone()
+        try:
+            return self._unroll_while(st, stmt, 6)
+        except _NeedsAbstraction:
+            return self.B.abstract_while(self, st0, stmt)
+
+    def _unroll_while(self, st, stmt, limit):
         res = []
         outs = [(st, ("next", None))]
-        for _ in range(64):
+        for _ in range(limit):
             nxt = []
             for s, o in outs:
-                for s2, (t2, cv) in self.eval(s, stmt.test):
-                    if t2 == RAISE:
-                        res.append((s2, ("raise", cv)))
-                        continue
-                    brs, excs = self.truth_branch(s2, cv)
-                    res.extend((x, ("raise", y)) for x, (_, y) in excs)
-                    for s3, b in brs:
-                        if not b:
-                            res.append((s3, ("next", None)))
-                            continue
-                        for s4, o4 in self.exec_block(s3, stmt.body):
-                            if o4[0] in ("next", "continue"):
-                                nxt.append((s4, ("next", None)))
-                            elif o4[0] == "break":
-                                res.append((s4, ("next", None)))
-                            else:
-                                res.append((s4, o4))
+                touts = self.eval(s, stmt.test)
+                if len(touts) != 1 or touts[0][1][0] != VAL:
+                    raise _NeedsAbstraction()
+                s2, (t2, cv) = touts[0]
+                tv = z3.simplify(P.truth(s2, cv))
+                if s2.pending or not (z3.is_true(tv) or z3.is_false(tv)):
+                    raise _NeedsAbstraction()
+                if z3.is_false(tv):
+                    res.append((s2, ("next", None)))
+                    continue
+                for s4, o4 in self.exec_block(s2, stmt.body):
+                    if o4[0] in ("next", "continue"):
+                        nxt.append((s4, ("next", None)))
+                    elif o4[0] == "break":
+                        res.append((s4, ("next", None)))
+                    else:
+                        res.append((s4, o4))
             outs = nxt
             if not outs:
                 return res
-        raise OutOfSubset("while loop at %s:%d needs an invariant" % key)
+        raise _NeedsAbstraction()
 
     def find_loop_contract(self, st, stmt):
         fn = st.frame.func.qualname if st.frame.func else None
